@@ -27,5 +27,6 @@ def body():
 n = 0
 for c in ENG.explore(body):
     n += 1
+    if os.environ.get('SHOWPC'): print('PC', [T.to_str(c, 6) for c in ENG.pc][:12], 'notes', ENG.notes[:5])
     print('path', n, {k: v for k, v in c.stats.items() if k != 'nontrivial_keys'}, 'cands', [(x.label, x.detail, x.values) for x in c.candidates][:3], c.inconclusive[:3])
     if n >= int(os.environ.get('MAXP', '5')): break
